@@ -30,6 +30,7 @@ CONSTANTS
   Kinds,              \* request kinds explored, subset of {"app","callback","logout"}
   Attacker,           \* TRUE: requests may carry any issued/forged cookie, state and code
   WriteCreatesAbsent, KeyedByIdOnly,
+  NoExpiresInMeansExpired, \* TRUE: a login answer without expires_in is stored as already expired (the defect repaired by 877be3f)
   ClearAbsentFails,   \* TRUE: clearing the login state of an absent session reports an error (Redis), FALSE: succeeds (memory)
   Export              \* TRUE: print terminal behaviours as scenarios
 
@@ -189,7 +190,7 @@ CbGetAuth(c) ==
 CodeGood(c) == loc[c].code \in Codes /\ codes[loc[c].code].sid = loc[c].sid /\ ~codes[loc[c].code].used
 
 CbExchange(c, ans) ==
-  /\ pcs[c] = "cbExchange" /\ ans \in {"ok", "okNoRt", "failBefore", "failAfter", "badToken"}
+  /\ pcs[c] = "cbExchange" /\ ans \in {"ok", "okNoRt", "okNoExpNoRt", "failBefore", "failAfter", "badToken"}
   /\ ans \in {"failBefore", "failAfter", "badToken"} => faults < MaxFaults
   /\ exLog' = exLog \cup {[sid |-> loc[c].sid, st |-> loc[c].st, f |-> loc[c].f]}
   /\ IF ans = "failBefore" \/ ~CodeGood(c)
@@ -201,7 +202,8 @@ CbExchange(c, ans) ==
              THEN /\ Finish(c, "deny") /\ faults' = faults + 1 /\ UNCHANGED <<nextTok, rtValid, minted>>
                   /\ loc' = [loc EXCEPT ![c].faulted = TRUE]
              ELSE /\ nextTok <= MaxTok
-                  /\ loc' = [loc EXCEPT ![c].new = [ex |-> TRUE, gen |-> nextTok, exp |-> now + TokLife,
+                  /\ loc' = [loc EXCEPT ![c].new = [ex |-> TRUE, gen |-> nextTok,
+                                                   exp |-> IF ans = "okNoExpNoRt" /\ NoExpiresInMeansExpired THEN now - 1 ELSE now + TokLife,
                                                    rt |-> IF ans = "ok" THEN nextTok ELSE 0]]
                   /\ rtValid' = IF ans = "ok" THEN rtValid \cup {nextTok} ELSE rtValid
                   /\ minted' = [minted EXCEPT ![nextTok] = codes[loc[c].code].sid]
@@ -303,7 +305,7 @@ StoreFail(c, mode) ==
 Step(c) ==
   \/ LogoutRemove(c) \/ GetTok(c) \/ RedirRemoveOld(c) \/ RedirSetAuth(c)
   \/ CbGetAuth(c) \/ CbClear(c) \/ CbSetTok(c) \/ RfGetAuth(c) \/ RfSetTok(c)
-  \/ \E a \in {"ok", "okNoRt", "failBefore", "failAfter", "badToken"} : CbExchange(c, a)
+  \/ \E a \in {"ok", "okNoRt", "okNoExpNoRt", "failBefore", "failAfter", "badToken"} : CbExchange(c, a)
   \/ \E a \in {"ok", "okRotate", "failBefore", "failAfter", "badToken"} : RfExchange(c, a)
   \/ \E ok \in BOOLEAN : CbJwks(c, ok) \/ RfJwks(c, ok)
   \/ \E m \in {"before", "after"} : StoreFail(c, m)
